@@ -19,6 +19,17 @@ CLAIMS = {
             "trusted: tree-sitter's raw child/kind/range API used for the projection; bounded shapes in the model; "
             "finite corpus for real grammars",
             "DESIGN.md section 3 C19"),
+    "C20": ("model_checking",
+            "TLA+ character machines (Lexers.tla) model-checked against the declarative notation on all strings to a "
+            "bound; the TLC-enumerated table replayed through the real code in all 23 languages and judged by TLC",
+            "Lexers.tla transcribes extract_meta_var, pre_process_pattern, the template scanner, parse_an_b/is_matched and "
+            "substring next to declarative definitions (Spelling, TemplateP, AnBP/SelectP, PySlice); TLC checks machine = "
+            "notation for every string up to the bound. Every exported string is then evaluated by the real code "
+            "(extract_meta_var o pre_process_pattern and Pattern::try_new in 23 languages, TemplateFix scan + replacement, "
+            "nthChild rules on a 12-element list, substring transforms for 256 start/end pairs) and Trace_C20 compares "
+            "each outcome with the declarative notation (alarm) and the transcription (drift).",
+            "bounded string length and alphabets; serde_yaml, regex and tree-sitter parsing of the tiny host programs are trusted",
+            "DESIGN.md section 3 C20"),
 }
 
 NOT_YET = "check not built yet in this round (construction order in DESIGN.md section 9); not claimed until it runs"
